@@ -235,6 +235,8 @@ def solve_task(task):
                 return {'idx': idx, 'status': 'proved', 'backend': cfg, 'time': total, 'tried': tried}
         return {'idx': idx, 'status': 'unknown', 'backend': '-', 'time': total, 'tried': tried}
     order = ['z3-ematch', 'z3-mbqi-short', 'z3-default', 'z3-seed1'] if has_quant else ['z3-default', 'z3-ematch']
+    if len(task) > 8 and task[8]:
+        order = list(task[8])        # a contract may name the stage that suits its VCs first (all stages stay available)
     tried = []
     total = 0.0
     for cfg in order:
@@ -323,7 +325,7 @@ def discharge(obligations, timeout_s=10, pool=None):
             smt2 = to_smt2(ob.pc, ob.goal, axioms)
         hq = 'forall' in smt2 or 'exists' in smt2
         to = int((getattr(ob, 'timeout', None) or timeout_s) * 1000)
-        tasks.append((i, smt2, hq, uses_strings(smt2), to, getattr(ob, 'expect_fail', False), plain))
+        tasks.append((i, smt2, hq, uses_strings(smt2), to, getattr(ob, 'expect_fail', False), plain, False, getattr(ob, 'solver_order', None)))
     if not tasks:
         return []
     own = pool is None
@@ -339,7 +341,7 @@ def discharge(obligations, timeout_s=10, pool=None):
     # on the machine), four times the budget, a long MBQI stage.  Verdicts `proved` / `refuted` of the first pass are final.
     again = [i for i, (r, t) in enumerate(zip(res, tasks)) if r['status'] == 'unknown' and not t[5]]
     if again and not os.environ.get('PYVC_NO_RETRY'):
-        tasks2 = [tasks[i][:4] + (max(tasks[i][4] * 4, 60000),) + tasks[i][5:7] + (True,) for i in again]
+        tasks2 = [tasks[i][:4] + (max(tasks[i][4] * 4, 60000),) + tasks[i][5:7] + (True,) + tasks[i][8:9] for i in again]
         pool2 = multiprocessing.get_context('fork').Pool(min(4, len(tasks2)))
         try:
             res2 = pool2.map(solve_task, tasks2, chunksize=1)
